@@ -78,6 +78,7 @@ def dispatch (line : String) : String :=
         | [_, _, f] => s!"PROPFAIL mailbox-constructors-give-different-values:{f}"
         | _ => "BADLINE")
     | "typed" => C17.typedOp args
+    | "tparse" => C17.tparseOp args
     | "build" => C17.buildOp args
     | "hdrs" => C02.hdrsOp args
     | "crlf" => C10.crlfOp args
